@@ -421,6 +421,10 @@ impl FileSystemState {
             forall|dir0: Dir, h: spec_fn(usize) -> ArtifactHash| state.hashes_match(h) ==>
                 (#[trigger] apply_all(dir0, ops@, ops@.len() as int, h)) is Some
                 && files_match(apply_all(dir0, ops@, ops@.len() as int, h)->Some_0, state, artifact_directory@), //@O C18+C19.O-2_from_scratch_plan_turns_any_directory_into_the_state
+            // ... and every directory the state implies (the artifact directory, one per selectable)
+            // exists afterwards, so that the next incremental plan finds them
+            forall|dir0: Dir, h: spec_fn(usize) -> ArtifactHash| state.hashes_match(h) && state.sels_nonempty() && state.nonempty() ==>
+                dirs_ok((#[trigger] apply_all(dir0, ops@, ops@.len() as int, h))->Some_0, state, artifact_directory@), //@O C18+C19.O-2f_from_scratch_plan_creates_every_directory_the_state_implies
 //@after "operations.push(FileSystemOperation::DeleteDirectory("
         proof {
             assert(at(operations@, 0) == OpV::DeleteDirectory(artifact_directory@));
@@ -545,6 +549,10 @@ impl FileSystemState {
                 && files_match(apply_all(dir0, operations@, operations@.len() as int, h)->Some_0, state, artifact_directory@) by {
                 lemma_recreate_all_correct(dir0, operations@, state, artifact_directory@, h);
             }
+            assert forall|dir0: Dir, h: spec_fn(usize) -> ArtifactHash| state.hashes_match(h) && state.sels_nonempty() && state.nonempty() implies
+                dirs_ok((#[trigger] apply_all(dir0, operations@, operations@.len() as int, h))->Some_0, state, artifact_directory@) by {
+                lemma_recreate_all_dirs(dir0, operations@, state, artifact_directory@, h);
+            }
         }
 //@end
 
@@ -575,14 +583,27 @@ impl FileSystemState {
             // hence (lemma_diff_correct, over the transcribed std::fs semantics): if the directory
             // held exactly the files of the old state and applying the plan does not fail, it
             // holds exactly the files of the new state
+            // the plan writes first and deletes afterwards
+            phased(ops@), //@O C18+C19.O-3g_diff_plan_writes_before_it_deletes
+            // ... and deletes no file twice
+            deletes_once(ops@), //@O C18+C19.O-3h_diff_plan_deletes_no_file_twice
             forall|dir0: Dir, h: spec_fn(usize) -> ArtifactHash|
                 files_match(dir0, old, artifact_directory@) && names_disjoint(old, new) && new.hashes_match(h)
                 && (#[trigger] apply_all(dir0, ops@, ops@.len() as int, h)) is Some
                 ==> files_match(apply_all(dir0, ops@, ops@.len() as int, h)->Some_0, new, artifact_directory@), //@O C18.O-3_diff_plan_turns_the_old_directory_into_the_new_state
+            // and it CANNOT fail by itself: on a directory that holds what the old state says (files
+            // and directories), no operation hits a missing directory or a missing file; afterwards
+            // the directories the new state implies exist
+            forall|dir0: Dir, h: spec_fn(usize) -> ArtifactHash|
+                files_match(dir0, old, artifact_directory@) && dirs_ok(dir0, old, artifact_directory@)
+                && names_disjoint(old, new) && names_disjoint(old, old) && new.hashes_match(h)
+                ==> (#[trigger] apply_all(dir0, ops@, ops@.len() as int, h)) is Some
+                    && dirs_ok(apply_all(dir0, ops@, ops@.len() as int, h)->Some_0, new, artifact_directory@), //@O C18+C19.O-3s_diff_plan_cannot_fail_on_the_remembered_directory
 //@before "let mut new_server_object_entity_name_set"
         proof { axiom_tuple_key_model(); }
 //@loop 1
             invariant
+                no_del(operations@),
                 all_justified(operations@, old, new, artifact_directory@),
                 writes_have_dirs(operations@, old, artifact_directory@),
                 iter_ok(it1.seq(), new.nested_files@),
@@ -591,6 +612,7 @@ impl FileSystemState {
                 forall|k: int| 0 <= k < it1.index@ ==> ent_w(operations@, old, new, artifact_directory@, *(#[trigger] it1.seq()[k]).0),
 //@loop 2
                 invariant
+                    no_del(operations@),
                     all_justified(operations@, old, new, artifact_directory@),
                     writes_have_dirs(operations@, old, artifact_directory@),
                     iter_ok(it1.seq(), new.nested_files@),
@@ -612,6 +634,7 @@ impl FileSystemState {
                     forall|k2: int| 0 <= k2 < it2.index@ ==> sel_w(operations@, old, new, artifact_directory@, *new_server_object_entity_name, *(#[trigger] it2.seq()[k2]).0),
 //@loop 3
                     invariant
+                        no_del(operations@),
                         all_justified(operations@, old, new, artifact_directory@),
                         writes_have_dirs(operations@, old, artifact_directory@),
                         new.nested_files@.contains_key(*new_server_object_entity_name),
@@ -652,6 +675,8 @@ impl FileSystemState {
                         assert(opv(pushed) == OpV::CreateDirectory(sel_dir(artifact_directory@, *new_server_object_entity_name, *new_selectable)));
                         lemma_push_diff(o1, pushed, old, new, artifact_directory@);
                         lemma_push_mono_diff(o1, pushed, old, new, artifact_directory@);
+                        lemma_push_phase(o1, pushed);
+                        lemma_push_once(o1, pushed);
                     }
 //@before "operations.push(FileSystemOperation::WriteFile(" nth=0
                         let ghost o2 = operations@;
@@ -667,9 +692,12 @@ impl FileSystemState {
                             assert(opv(pushed) == OpV::WriteFile(nested_path(artifact_directory@, e, s, f), new.nested_idx(e, s, f)));
                             lemma_push_diff(o2, pushed, old, new, artifact_directory@);
                             lemma_push_mono_diff(o2, pushed, old, new, artifact_directory@);
+                            lemma_push_phase(o2, pushed);
+                            lemma_push_once(o2, pushed);
                         }
 //@loop 4
             invariant
+                no_del(operations@),
                 all_justified(operations@, old, new, artifact_directory@),
                 writes_have_dirs(operations@, old, artifact_directory@),
                 all_w(operations@, old, new, artifact_directory@),
@@ -690,9 +718,15 @@ impl FileSystemState {
                     assert(opv(pushed) == OpV::WriteFile(root_path(artifact_directory@, f), new.root_idx(f)));
                     lemma_push_diff(o3, pushed, old, new, artifact_directory@);
                     lemma_push_mono_diff(o3, pushed, old, new, artifact_directory@);
+                    lemma_push_phase(o3, pushed);
+                    lemma_push_once(o3, pushed);
                 }
 //@loop 5
             invariant
+                deletes_once(operations@),
+                forall|i: int| 0 <= i < operations@.len() && (#[trigger] at(operations@, i)) is DeleteFile ==>
+                    del3(at(operations@, i), artifact_directory@) && vis(it5.seq(), it5.index@, dcomp(at(operations@, i), artifact_directory@, 0)),
+                phased(operations@),
                 all_justified(operations@, old, new, artifact_directory@),
                 writes_have_dirs(operations@, old, artifact_directory@),
                 all_w(operations@, old, new, artifact_directory@),
@@ -703,6 +737,13 @@ impl FileSystemState {
                 forall|k: int| 0 <= k < it5.index@ ==> ent_d(operations@, old, new, artifact_directory@, *(#[trigger] it5.seq()[k]).0),
 //@loop 6
                 invariant
+                    deletes_once(operations@),
+                    iter_ok(it5.seq(), old.nested_files@), 0 <= it5.index@ < it5.seq().len(),
+                    *old_server_object_entity_name == *it5.seq()[it5.index@].0,
+                    forall|i: int| 0 <= i < operations@.len() && (#[trigger] at(operations@, i)) is DeleteFile ==>
+                        del3(at(operations@, i), artifact_directory@) && (vis(it5.seq(), it5.index@, dcomp(at(operations@, i), artifact_directory@, 0))
+                            || (dcomp(at(operations@, i), artifact_directory@, 0) == *old_server_object_entity_name as int && vis(it6.seq(), it6.index@, dcomp(at(operations@, i), artifact_directory@, 1)))),
+                    phased(operations@),
                     all_justified(operations@, old, new, artifact_directory@),
                     writes_have_dirs(operations@, old, artifact_directory@),
                     all_w(operations@, old, new, artifact_directory@),
@@ -722,6 +763,16 @@ impl FileSystemState {
                     forall|k2: int| 0 <= k2 < it6.index@ ==> sel_d(operations@, old, new, artifact_directory@, *old_server_object_entity_name, *(#[trigger] it6.seq()[k2]).0),
 //@loop 7
                     invariant
+                        deletes_once(operations@),
+                        iter_ok(it5.seq(), old.nested_files@), 0 <= it5.index@ < it5.seq().len(),
+                        *old_server_object_entity_name == *it5.seq()[it5.index@].0,
+                        iter_ok(it6.seq(), old_selectable_map@), 0 <= it6.index@ < it6.seq().len(),
+                        *old_selectable == *it6.seq()[it6.index@].0,
+                        forall|i: int| 0 <= i < operations@.len() && (#[trigger] at(operations@, i)) is DeleteFile ==>
+                            del3(at(operations@, i), artifact_directory@) && (vis(it5.seq(), it5.index@, dcomp(at(operations@, i), artifact_directory@, 0))
+                                || (dcomp(at(operations@, i), artifact_directory@, 0) == *old_server_object_entity_name as int && (vis(it6.seq(), it6.index@, dcomp(at(operations@, i), artifact_directory@, 1))
+                                    || (dcomp(at(operations@, i), artifact_directory@, 1) == *old_selectable as int && vis(it7.seq(), it7.index@, dcomp(at(operations@, i), artifact_directory@, 2)))))),
+                        phased(operations@),
                         all_justified(operations@, old, new, artifact_directory@),
                         writes_have_dirs(operations@, old, artifact_directory@),
                         all_w(operations@, old, new, artifact_directory@),
@@ -751,6 +802,8 @@ impl FileSystemState {
                     assert(opv(pushed) == OpV::DeleteDirectory(ent_dir(artifact_directory@, e)));
                     lemma_push_diff(o4, pushed, old, new, artifact_directory@);
                     lemma_push_mono_diff(o4, pushed, old, new, artifact_directory@);
+                    lemma_push_phase(o4, pushed);
+                    lemma_push_once(o4, pushed);
                 }
 //@before "operations.push(FileSystemOperation::DeleteDirectory(old_selectable_path)"
                     let ghost o5 = operations@;
@@ -763,6 +816,8 @@ impl FileSystemState {
                         assert(opv(pushed) == OpV::DeleteDirectory(sel_dir(artifact_directory@, e, s)));
                         lemma_push_diff(o5, pushed, old, new, artifact_directory@);
                         lemma_push_mono_diff(o5, pushed, old, new, artifact_directory@);
+                        lemma_push_phase(o5, pushed);
+                        lemma_push_once(o5, pushed);
                     }
 //@before "operations.push(FileSystemOperation::DeleteFile(" nth=0
                             let ghost o6 = operations@;
@@ -775,9 +830,36 @@ impl FileSystemState {
                                 assert(opv(pushed) == OpV::DeleteFile(nested_path(artifact_directory@, e, s, f)));
                                 lemma_push_diff(o6, pushed, old, new, artifact_directory@);
                                 lemma_push_mono_diff(o6, pushed, old, new, artifact_directory@);
+                                lemma_push_phase(o6, pushed);
+                                lemma_paths(artifact_directory@, e, s, f);
+                                assert forall|i: int| 0 <= i < o6.len() && (#[trigger] at(o6, i)) is DeleteFile implies at(o6, i)->DeleteFile_0 != nested_path(artifact_directory@, e, s, f) by {
+                                    if at(o6, i)->DeleteFile_0 == nested_path(artifact_directory@, e, s, f) {
+                                        let x = at(o6, i);
+                                        assert(dcomp(x, artifact_directory@, 0) == e as int && dcomp(x, artifact_directory@, 1) == s as int && dcomp(x, artifact_directory@, 2) == f as int);
+                                        if vis(it5.seq(), it5.index@, e as int) {
+                                            lemma_vis_fresh(it5.seq(), old.nested_files@, it5.index@);
+                                        } else if vis(it6.seq(), it6.index@, s as int) {
+                                            lemma_vis_fresh(it6.seq(), old_selectable_map@, it6.index@);
+                                        } else {
+                                            lemma_vis_fresh(it7.seq(), old_files@, it7.index@);
+                                        }
+                                    }
+                                }
+                                lemma_push_once(o6, pushed);
+                                assert(vis(it7.seq(), it7.index@ + 1, f as int)) by { assert(*it7.seq()[it7.index@].0 as int == f as int); }
+                                assert forall|i: int| 0 <= i < operations@.len() && (#[trigger] at(operations@, i)) is DeleteFile implies
+                                    del3(at(operations@, i), artifact_directory@) && (vis(it5.seq(), it5.index@, dcomp(at(operations@, i), artifact_directory@, 0))
+                                        || (dcomp(at(operations@, i), artifact_directory@, 0) == e as int && (vis(it6.seq(), it6.index@, dcomp(at(operations@, i), artifact_directory@, 1))
+                                            || (dcomp(at(operations@, i), artifact_directory@, 1) == s as int && vis(it7.seq(), it7.index@ + 1, dcomp(at(operations@, i), artifact_directory@, 2)))))) by {
+                                    if i < o6.len() { assert(at(operations@, i) == at(o6, i)); lemma_vis_mono(it7.seq(), it7.index@, dcomp(at(o6, i), artifact_directory@, 2)); }
+                                }
                             }
 //@loop 8
             invariant
+                deletes_once(operations@),
+                forall|i: int| 0 <= i < operations@.len() && (#[trigger] at(operations@, i)) is DeleteFile ==>
+                    del3(at(operations@, i), artifact_directory@) || (del1(at(operations@, i), artifact_directory@) && vis(it8.seq(), it8.index@, at(operations@, i)->DeleteFile_0.last())),
+                phased(operations@),
                 all_justified(operations@, old, new, artifact_directory@),
                 writes_have_dirs(operations@, old, artifact_directory@),
                 all_w(operations@, old, new, artifact_directory@),
@@ -796,6 +878,20 @@ impl FileSystemState {
                     assert(opv(pushed) == OpV::DeleteFile(root_path(artifact_directory@, f)));
                     lemma_push_diff(o7, pushed, old, new, artifact_directory@);
                     lemma_push_mono_diff(o7, pushed, old, new, artifact_directory@);
+                    lemma_push_phase(o7, pushed);
+                    lemma_paths(artifact_directory@, 0, 0, f);
+                    assert forall|i: int| 0 <= i < o7.len() && (#[trigger] at(o7, i)) is DeleteFile implies at(o7, i)->DeleteFile_0 != root_path(artifact_directory@, f) by {
+                        if at(o7, i)->DeleteFile_0 == root_path(artifact_directory@, f) {
+                            assert(del1(at(o7, i), artifact_directory@));
+                            lemma_vis_fresh(it8.seq(), old.root_files@, it8.index@);
+                        }
+                    }
+                    lemma_push_once(o7, pushed);
+                    assert(vis(it8.seq(), it8.index@ + 1, f as int)) by { assert(*it8.seq()[it8.index@].0 as int == f as int); }
+                    assert forall|i: int| 0 <= i < operations@.len() && (#[trigger] at(operations@, i)) is DeleteFile implies
+                        del3(at(operations@, i), artifact_directory@) || (del1(at(operations@, i), artifact_directory@) && vis(it8.seq(), it8.index@ + 1, at(operations@, i)->DeleteFile_0.last())) by {
+                        if i < o7.len() { assert(at(operations@, i) == at(o7, i)); if !del3(at(o7, i), artifact_directory@) { lemma_vis_mono(it8.seq(), it8.index@, at(o7, i)->DeleteFile_0.last()); } }
+                    }
                 }
 //@atend
         proof {
@@ -804,6 +900,13 @@ impl FileSystemState {
                 && (#[trigger] apply_all(dir0, operations@, operations@.len() as int, h)) is Some
                 implies files_match(apply_all(dir0, operations@, operations@.len() as int, h)->Some_0, new, artifact_directory@) by {
                 lemma_diff_correct(dir0, operations@, old, new, artifact_directory@, h);
+            }
+            assert forall|dir0: Dir, h: spec_fn(usize) -> ArtifactHash|
+                files_match(dir0, old, artifact_directory@) && dirs_ok(dir0, old, artifact_directory@)
+                && names_disjoint(old, new) && names_disjoint(old, old) && new.hashes_match(h)
+                implies (#[trigger] apply_all(dir0, operations@, operations@.len() as int, h)) is Some
+                    && dirs_ok(apply_all(dir0, operations@, operations@.len() as int, h)->Some_0, new, artifact_directory@) by {
+                lemma_diff_dirs(dir0, operations@, old, new, artifact_directory@, h);
             }
         }
 //@end
@@ -875,7 +978,11 @@ pub proof fn lemma_nested_insert(o: EntMap, n: EntMap, e: u64, s: u64, f: u64, v
         forall|e2: u64, s2: u64, f2: u64| #[trigger] nhas(n, e2, s2, f2) <==> (nhas(o, e2, s2, f2) || (e2 == e && s2 == s && f2 == f)),
         forall|e2: u64, s2: u64, f2: u64| nhas(o, e2, s2, f2) && !(e2 == e && s2 == s && f2 == f) ==> #[trigger] nval(n, e2, s2, f2) == nval(o, e2, s2, f2),
         nval(n, e, s, f) == v,
+        forall|e2: u64, s2: u64| (n.contains_key(e2) && #[trigger] n[e2]@.contains_key(s2)) <==> ((o.contains_key(e2) && o[e2]@.contains_key(s2)) || (e2 == e && s2 == s)),
 {
+    assert forall|e2: u64, s2: u64| (n.contains_key(e2) && #[trigger] n[e2]@.contains_key(s2)) <==> ((o.contains_key(e2) && o[e2]@.contains_key(s2)) || (e2 == e && s2 == s)) by {
+        if e2 == e { assert(n[e2] == m1); }
+    }
     assert forall|e2: u64, s2: u64, f2: u64| #[trigger] nhas(n, e2, s2, f2) <==> (nhas(o, e2, s2, f2) || (e2 == e && s2 == s && f2 == f)) by {
         if e2 == e {
             assert(n[e2] == m1);
@@ -909,6 +1016,15 @@ impl FileSystemState {
                 && (!art_root(arts[i]) ==> self.has_nested(art_e(arts[i]), art_s(arts[i]), art_f(arts[i]))
                     && self.nested_idx(art_e(arts[i]), art_s(arts[i]), art_f(arts[i])) == i)
     }
+    /// no selectable without a file (the state is built from files; an empty selectable would
+    /// stand for a directory nobody created)
+    pub open spec fn sels_nonempty(&self) -> bool {
+        forall|e: u64, s: u64| #[trigger] self.has_sel(e, s) ==> exists|f: u64| self.has_nested(e, s, f)
+    }
+    /// the state holds at least one file
+    pub open spec fn nonempty(&self) -> bool {
+        (exists|f: u64| self.has_root(f)) || (exists|e: u64, s: u64, f: u64| self.has_nested(e, s, f))
+    }
     /// every content index stored in the state addresses the artifact list
     pub open spec fn indices_below(&self, n: int) -> bool {
         &&& forall|f: u64| #[trigger] self.has_root(f) ==> self.root_idx(f) < n
@@ -925,6 +1041,7 @@ impl FileSystemState {
         ensures
             r.reflects(artifacts@, artifacts@.len() as int), //@O C18.O-1_state_reflects_the_artifact_list
             r.indices_below(artifacts@.len() as int), //@O C18.O-1_state_indices_address_the_artifact_list
+            r.sels_nonempty(), //@O C18.O-1_every_selectable_of_the_state_holds_a_file
 //@loop 1
             invariant
                 index == ita.index@,
@@ -932,6 +1049,7 @@ impl FileSystemState {
                 forall|k: int| 0 <= k < ita.seq().len() ==> *(#[trigger] ita.seq()[k]) == artifacts@[k],
                 index <= artifacts@.len(), artifacts@.len() <= usize::MAX,
                 (FileSystemState { root_files, nested_files }).reflects(artifacts@, index as int),
+                (FileSystemState { root_files, nested_files }).sels_nonempty(),
 //@before "let mut root_files"
         proof { axiom_slice_len(artifacts); }
 //@bodystart 1
@@ -1017,6 +1135,15 @@ impl FileSystemState {
                     }
                 }
                 assert(st.reflects(arts, k + 1));
+                assert forall|e2: u64, s2: u64| #[trigger] st.has_sel(e2, s2) implies exists|f2: u64| st.has_nested(e2, s2, f2) by {
+                    if !art_root(a) && e2 == art_e(a) && s2 == art_s(a) {
+                        assert(st.has_nested(e2, s2, art_f(a)));
+                    } else {
+                        assert(st0.has_sel(e2, s2));
+                        let f2 = choose|f2: u64| st0.has_nested(e2, s2, f2);
+                        assert(st.has_nested(e2, s2, f2));
+                    }
+                }
             }
 //@end
 }
@@ -1176,7 +1303,18 @@ pub proof fn lemma_plan_indices_from_diff(ops: Seq<FileSystemOperation>, o: &Fil
             && (#[trigger] apply_all(dir0, ops@, ops@.len() as int, contents_of(paths_and_contents@))) is Some
             ==> files_match(apply_all(dir0, ops@, ops@.len() as int, contents_of(paths_and_contents@))->Some_0,
                    &(*final(file_system_state))->Some_0, artifact_directory@), //@O C18.O-7_later_compile_leaves_exactly_the_artifacts_if_nothing_else_edited_the_directory
-        // the same three facts as ONE predicate: what the session lemma below is stated over
+        // C18 / C19: a later compile's plan cannot fail by itself. If the directory holds what the
+        // session remembers (files and the directories they imply), every operation of the plan
+        // finds what it needs; afterwards the directories of the new state exist
+        *old(file_system_state) is Some ==> forall|dir0: Dir|
+            files_match(dir0, &(*old(file_system_state))->Some_0, artifact_directory@)
+            && dirs_ok(dir0, &(*old(file_system_state))->Some_0, artifact_directory@)
+            && names_disjoint(&(*old(file_system_state))->Some_0, &(*final(file_system_state))->Some_0)
+            && names_disjoint(&(*old(file_system_state))->Some_0, &(*old(file_system_state))->Some_0)
+            ==> (#[trigger] apply_all(dir0, ops@, ops@.len() as int, contents_of(paths_and_contents@))) is Some
+                && dirs_ok(apply_all(dir0, ops@, ops@.len() as int, contents_of(paths_and_contents@))->Some_0,
+                       &(*final(file_system_state))->Some_0, artifact_directory@), //@O C18+C19.O-7s_later_compile_cannot_fail_on_the_remembered_directory
+        // the same facts as ONE predicate: what the session lemma below is stated over
         *final(file_system_state) is Some
             && planned(*old(file_system_state), paths_and_contents@, artifact_directory@, ops@, (*final(file_system_state))->Some_0), //@O C18.O-8_planner_contract_as_used_by_the_session_lemma
 //@before "*file_system_state ="
@@ -1474,6 +1612,86 @@ pub proof fn lemma_recreate_all_correct(dir0: Dir, ops: Seq<FileSystemOperation>
     }
 }
 
+/// every directory a from-scratch plan created so far exists, with all its ancestors
+pub open spec fn created_closed(dk: Dir, ops: Seq<FileSystemOperation>, k: int) -> bool {
+    forall|j: int, p: Seq<int>| 0 < j < k && j < ops.len() && (#[trigger] at(ops, j)) is CreateDirectory
+        && #[trigger] is_prefix(p, at(ops, j)->CreateDirectory_0) ==> (dk.dirs)(p)
+}
+pub proof fn lemma_scratch_dirs(dir0: Dir, ops: Seq<FileSystemOperation>, d: Seq<int>, h: spec_fn(usize) -> ArtifactHash, k: int)
+    requires wipes_first(ops, d), 1 <= k <= ops.len(), apply_all(dir0, ops, k, h) is Some,
+    ensures created_closed(apply_all(dir0, ops, k, h)->Some_0, ops, k),
+    decreases k
+{
+    if k > 1 {
+        assert(apply_all(dir0, ops, k - 1, h) is Some);
+        lemma_scratch_dirs(dir0, ops, d, h, k - 1);
+        let dk = apply_all(dir0, ops, k - 1, h)->Some_0;
+        let x = at(ops, k - 1);
+        assert(x is WriteFile || x is CreateDirectory);
+        let dn = apply_op(dk, x, h)->Some_0;
+        assert(apply_all(dir0, ops, k, h) == apply_op(dk, x, h));
+        assert forall|j: int, p: Seq<int>| 0 < j < k && j < ops.len() && (#[trigger] at(ops, j)) is CreateDirectory
+            && #[trigger] is_prefix(p, at(ops, j)->CreateDirectory_0) implies (dn.dirs)(p) by {
+            if j < k - 1 { assert((dk.dirs)(p)); }
+        }
+    }
+}
+/// the directories the state implies exist after the from-scratch plan
+pub proof fn lemma_recreate_all_dirs(dir0: Dir, ops: Seq<FileSystemOperation>, st: &FileSystemState, d: Seq<int>, h: spec_fn(usize) -> ArtifactHash)
+    requires
+        wipes_first(ops, d), writes_sound(ops, st, d, true), parents_created(ops),
+        roots_written(ops, d, st.root_files@), ents_written(ops, d, st.nested_files@),
+        st.hashes_match(h), st.sels_nonempty(), st.nonempty(),
+    ensures
+        apply_all(dir0, ops, ops.len() as int, h) is Some,
+        dirs_ok(apply_all(dir0, ops, ops.len() as int, h)->Some_0, st, d),
+{
+    let n = ops.len() as int;
+    lemma_scratch(dir0, ops, st, d, h, n);
+    lemma_scratch_dirs(dir0, ops, d, h, n);
+    let dn = apply_all(dir0, ops, n, h)->Some_0;
+    assert forall|e: u64, s: u64| #[trigger] st.has_sel(e, s) implies (dn.dirs)(sel_dir(d, e, s)) by {
+        let f = choose|f: u64| st.has_nested(e, s, f);
+        lemma_paths(d, e, s, f);
+        assert(st.nested_files@.contains_key(e));
+        assert(sels_written(ops, d, e, st.nested_files@[e]@));
+        assert(files_written(ops, d, e, s, st.nested_files@[e]@[s]@));
+        assert(file_written(ops, d, e, s, f, st.nested_files@[e]@[s]@[f]));
+        let i = choose|i: int| 0 <= i < ops.len() && #[trigger] at(ops, i) == OpV::WriteFile(nested_path(d, e, s, f), st.nested_files@[e]@[s]@[f].0.idx);
+        assert(at(ops, i) is WriteFile);
+        assert(emits_between(ops, OpV::CreateDirectory(at(ops, i)->WriteFile_0.drop_last()), i));
+        let j = choose|j: int| 0 < j < i && j < ops.len() && #[trigger] at(ops, j) == OpV::CreateDirectory(sel_dir(d, e, s));
+        assert(at(ops, j) is CreateDirectory);
+        assert(is_prefix(sel_dir(d, e, s), at(ops, j)->CreateDirectory_0)) by { assert(sel_dir(d, e, s).subrange(0, sel_dir(d, e, s).len() as int) =~= sel_dir(d, e, s)); }
+    }
+    if exists|f: u64| st.has_root(f) {
+        let f = choose|f: u64| st.has_root(f);
+        lemma_paths(d, 0, 0, f);
+        assert(emits(ops, OpV::WriteFile(root_path(d, f), st.root_files@[f].0.idx)));
+        let i = choose|i: int| 0 <= i < ops.len() && #[trigger] at(ops, i) == OpV::WriteFile(root_path(d, f), st.root_files@[f].0.idx);
+        assert(at(ops, i) is WriteFile);
+        assert(emits_between(ops, OpV::CreateDirectory(at(ops, i)->WriteFile_0.drop_last()), i));
+        let j = choose|j: int| 0 < j < i && j < ops.len() && #[trigger] at(ops, j) == OpV::CreateDirectory(d);
+        assert(at(ops, j) is CreateDirectory);
+        assert(is_prefix(d, at(ops, j)->CreateDirectory_0));
+    } else {
+        let (e, s, f) = choose|e: u64, s: u64, f: u64| st.has_nested(e, s, f);
+        lemma_paths(d, e, s, f);
+        assert(st.has_sel(e, s));
+        assert((dn.dirs)(sel_dir(d, e, s)));
+        assert(st.nested_files@.contains_key(e));
+        assert(sels_written(ops, d, e, st.nested_files@[e]@));
+        assert(files_written(ops, d, e, s, st.nested_files@[e]@[s]@));
+        assert(file_written(ops, d, e, s, f, st.nested_files@[e]@[s]@[f]));
+        let i = choose|i: int| 0 <= i < ops.len() && #[trigger] at(ops, i) == OpV::WriteFile(nested_path(d, e, s, f), st.nested_files@[e]@[s]@[f].0.idx);
+        assert(at(ops, i) is WriteFile);
+        assert(emits_between(ops, OpV::CreateDirectory(at(ops, i)->WriteFile_0.drop_last()), i));
+        let j = choose|j: int| 0 < j < i && j < ops.len() && #[trigger] at(ops, j) == OpV::CreateDirectory(sel_dir(d, e, s));
+        assert(at(ops, j) is CreateDirectory);
+        assert(is_prefix(d, at(ops, j)->CreateDirectory_0));
+    }
+}
+
 // ---------------- the incremental plan (diff) ----------------
 pub open spec fn wr_hit(x: OpV, p: Seq<int>) -> bool { x is WriteFile && x->WriteFile_0 == p }
 pub open spec fn del_hit(x: OpV, p: Seq<int>) -> bool {
@@ -1631,6 +1849,349 @@ pub proof fn lemma_diff_fold(dir0: Dir, ops: Seq<FileSystemOperation>, o: &FileS
         }
     }
 }
+// ---------------- the incremental plan cannot fail (given what the session remembers is true) ----------------
+pub open spec fn is_del(x: OpV) -> bool { x is DeleteFile || x is DeleteDirectory }
+/// the plan first writes (and creates directories), then deletes
+pub open spec fn phased(ops: Seq<FileSystemOperation>) -> bool {
+    forall|i: int, j: int| 0 <= i < j < ops.len() && is_del(#[trigger] at(ops, i)) ==> is_del(#[trigger] at(ops, j))
+}
+pub open spec fn no_del(ops: Seq<FileSystemOperation>) -> bool {
+    forall|i: int| 0 <= i < ops.len() ==> !is_del(#[trigger] at(ops, i))
+}
+pub proof fn lemma_push_phase(ops: Seq<FileSystemOperation>, op: FileSystemOperation)
+    requires phased(ops), !is_del(opv(op)) ==> no_del(ops),
+    ensures phased(ops.push(op)), (no_del(ops) && !is_del(opv(op))) ==> no_del(ops.push(op)),
+{
+    let m = ops.push(op);
+    assert forall|i: int| 0 <= i < m.len() implies at(m, i) == (if i < ops.len() { at(ops, i) } else { opv(op) }) by {}
+    assert forall|i: int, j: int| 0 <= i < j < m.len() && is_del(#[trigger] at(m, i)) implies is_del(#[trigger] at(m, j)) by {
+        if j < ops.len() { assert(is_del(at(ops, i))); assert(is_del(at(ops, j))); }
+        else { assert(is_del(at(ops, i))); }
+    }
+}
+/// no file is deleted twice (remove_file on a missing file is an error)
+pub open spec fn deletes_once(ops: Seq<FileSystemOperation>) -> bool {
+    forall|i: int, j: int| 0 <= i < j < ops.len() && (#[trigger] at(ops, i)) is DeleteFile && (#[trigger] at(ops, j)) is DeleteFile
+        ==> at(ops, i)->DeleteFile_0 != at(ops, j)->DeleteFile_0
+}
+/// the directories the remembered state implies exist: the artifact directory itself and
+/// one directory per selectable
+pub open spec fn dirs_ok(dir: Dir, st: &FileSystemState, d: Seq<int>) -> bool {
+    (dir.dirs)(d) && forall|e: u64, s: u64| #[trigger] st.has_sel(e, s) ==> (dir.dirs)(sel_dir(d, e, s))
+}
+/// directories while only writes / creates have been applied: nothing disappeared, every
+/// created directory exists
+pub open spec fn dirs_grow(dk: Dir, dir0: Dir, ops: Seq<FileSystemOperation>, k: int) -> bool {
+    &&& forall|q: Seq<int>| (dir0.dirs)(q) ==> #[trigger] (dk.dirs)(q)
+    &&& forall|j: int| 0 <= j < k && j < ops.len() && (#[trigger] at(ops, j)) is CreateDirectory ==> (dk.dirs)(at(ops, j)->CreateDirectory_0)
+}
+/// a justified file deletion is of a file the old state has and the new one has not
+pub proof fn lemma_diff_delete_target(x: OpV, o: &FileSystemState, n: &FileSystemState, d: Seq<int>)
+    requires op_justified(x, o, n, d), x is DeleteFile,
+    ensures
+        is_prefix(d, x->DeleteFile_0), o.file_at(d, x->DeleteFile_0) is Some, n.file_at(d, x->DeleteFile_0) is None,
+{
+    if exists|f: u64| o.has_root(f) && !n.has_root(f) && x == OpV::DeleteFile(root_path(d, f)) {
+        let f = choose|f: u64| o.has_root(f) && !n.has_root(f) && x == OpV::DeleteFile(root_path(d, f));
+        lemma_paths(d, 0, 0, f); lemma_file_at(o, d, 0, 0, f); lemma_file_at(n, d, 0, 0, f);
+    } else {
+        let (e, s, f) = choose|e: u64, s: u64, f: u64| o.has_nested(e, s, f) && n.has_sel(e, s) && !n.has_nested(e, s, f) && x == OpV::DeleteFile(nested_path(d, e, s, f));
+        lemma_paths(d, e, s, f); lemma_file_at(o, d, e, s, f); lemma_file_at(n, d, e, s, f);
+    }
+}
+/// a justified directory deletion never covers a file that the plan deletes individually
+pub proof fn lemma_diff_dir_vs_file(x: OpV, y: OpV, o: &FileSystemState, n: &FileSystemState, d: Seq<int>)
+    requires op_justified(x, o, n, d), x is DeleteDirectory, op_justified(y, o, n, d), y is DeleteFile, names_disjoint(o, o),
+    ensures !is_prefix(x->DeleteDirectory_0, y->DeleteFile_0),
+{
+    if is_prefix(x->DeleteDirectory_0, y->DeleteFile_0) {
+        if exists|f: u64| o.has_root(f) && !n.has_root(f) && y == OpV::DeleteFile(root_path(d, f)) {
+            let f = choose|f: u64| o.has_root(f) && !n.has_root(f) && y == OpV::DeleteFile(root_path(d, f));
+            if exists|e1: u64| o.has_entity(e1) && !n.has_entity(e1) && x == OpV::DeleteDirectory(ent_dir(d, e1)) {
+                let e1 = choose|e1: u64| o.has_entity(e1) && !n.has_entity(e1) && x == OpV::DeleteDirectory(ent_dir(d, e1));
+                lemma_prefixes(d, e1, 0, 0, 0, f);
+                assert(o.has_root(f) && o.has_entity(f));
+            } else {
+                let (e1, s1) = choose|e1: u64, s1: u64| o.has_sel(e1, s1) && n.has_entity(e1) && !n.has_sel(e1, s1) && x == OpV::DeleteDirectory(sel_dir(d, e1, s1));
+                lemma_prefixes(d, e1, s1, 0, 0, f);
+            }
+        } else {
+            let (e, s, f) = choose|e: u64, s: u64, f: u64| o.has_nested(e, s, f) && n.has_sel(e, s) && !n.has_nested(e, s, f) && y == OpV::DeleteFile(nested_path(d, e, s, f));
+            if exists|e1: u64| o.has_entity(e1) && !n.has_entity(e1) && x == OpV::DeleteDirectory(ent_dir(d, e1)) {
+                let e1 = choose|e1: u64| o.has_entity(e1) && !n.has_entity(e1) && x == OpV::DeleteDirectory(ent_dir(d, e1));
+                lemma_prefixes(d, e1, 0, e, s, f);
+                assert(n.has_entity(e));
+            } else {
+                let (e1, s1) = choose|e1: u64, s1: u64| o.has_sel(e1, s1) && n.has_entity(e1) && !n.has_sel(e1, s1) && x == OpV::DeleteDirectory(sel_dir(d, e1, s1));
+                lemma_prefixes(d, e1, s1, e, s, f);
+            }
+        }
+    }
+}
+/// key c was produced by one of the first idx steps of an iteration
+pub open spec fn vis<V>(seq: Seq<(&u64, &V)>, idx: int, c: int) -> bool {
+    exists|k: int| 0 <= k < idx && k < seq.len() && (*(#[trigger] seq[k]).0) as int == c
+}
+pub open spec fn del3(x: OpV, d: Seq<int>) -> bool { x is DeleteFile && x->DeleteFile_0.len() == d.len() + 3 }
+pub open spec fn del1(x: OpV, d: Seq<int>) -> bool { x is DeleteFile && x->DeleteFile_0.len() == d.len() + 1 }
+pub open spec fn dcomp(x: OpV, d: Seq<int>, j: int) -> int { x->DeleteFile_0[d.len() as int + j] }
+pub proof fn lemma_vis_mono<V>(seq: Seq<(&u64, &V)>, idx: int, c: int)
+    ensures vis(seq, idx, c) ==> vis(seq, idx + 1, c)
+{
+    if vis(seq, idx, c) { let k = choose|k: int| 0 <= k < idx && k < seq.len() && (*(#[trigger] seq[k]).0) as int == c; assert(0 <= k < idx + 1 && (*seq[k].0) as int == c); }
+}
+/// a HashMap iteration yields every key once: the current key was not seen before
+pub proof fn lemma_vis_fresh<V>(seq: Seq<(&u64, &V)>, m: Map<u64, V>, idx: int)
+    requires iter_ok(seq, m), 0 <= idx < seq.len(),
+    ensures !vis(seq, idx, (*seq[idx].0) as int)
+{
+    if vis(seq, idx, (*seq[idx].0) as int) {
+        let k = choose|k: int| 0 <= k < idx && k < seq.len() && (*(#[trigger] seq[k]).0) as int == (*seq[idx].0) as int;
+        assert(*seq[k].0 == *seq[idx].0);
+        assert(*seq[k].1 == *seq[idx].1);
+        assert(seq[k] == seq[idx]);
+    }
+}
+pub proof fn lemma_push_once(ops: Seq<FileSystemOperation>, op: FileSystemOperation)
+    requires deletes_once(ops),
+        opv(op) is DeleteFile ==> forall|i: int| 0 <= i < ops.len() && (#[trigger] at(ops, i)) is DeleteFile ==> at(ops, i)->DeleteFile_0 != opv(op)->DeleteFile_0,
+    ensures deletes_once(ops.push(op)),
+        forall|i: int| 0 <= i < ops.len() ==> #[trigger] at(ops.push(op), i) == at(ops, i),
+        at(ops.push(op), ops.len() as int) == opv(op),
+{
+    let m = ops.push(op);
+    assert forall|i: int| 0 <= i < m.len() implies at(m, i) == (if i < ops.len() { at(ops, i) } else { opv(op) }) by {}
+    assert forall|i: int, j: int| 0 <= i < j < m.len() && (#[trigger] at(m, i)) is DeleteFile && (#[trigger] at(m, j)) is DeleteFile
+        implies at(m, i)->DeleteFile_0 != at(m, j)->DeleteFile_0 by {
+        if j < ops.len() { assert(at(ops, i) is DeleteFile && at(ops, j) is DeleteFile); }
+        else { assert(at(ops, i) is DeleteFile); }
+    }
+}
+/// C18 / C19, later compiles: applied to a directory that holds what the session remembers,
+/// the incremental plan does not fail (no std::fs call in it can hit a missing directory or a
+/// missing file), whatever the two states are
+pub proof fn lemma_diff_succeeds(dir0: Dir, ops: Seq<FileSystemOperation>, o: &FileSystemState, n: &FileSystemState, d: Seq<int>, h: spec_fn(usize) -> ArtifactHash, k: int)
+    requires
+        all_justified(ops, o, n, d), writes_have_dirs(ops, o, d), phased(ops), deletes_once(ops),
+        names_disjoint(o, n), names_disjoint(o, o), n.hashes_match(h),
+        files_match(dir0, o, d), dirs_ok(dir0, o, d),
+        0 <= k <= ops.len(),
+    ensures
+        apply_all(dir0, ops, k, h) is Some,
+        (forall|j: int| 0 <= j < k ==> !is_del(#[trigger] at(ops, j))) ==> dirs_grow(apply_all(dir0, ops, k, h)->Some_0, dir0, ops, k),
+    decreases k
+{
+    if k == 0 {
+    } else {
+        lemma_diff_succeeds(dir0, ops, o, n, d, h, k - 1);
+        lemma_diff_fold(dir0, ops, o, n, d, h, k - 1);
+        let dk = apply_all(dir0, ops, k - 1, h)->Some_0;
+        let x = at(ops, k - 1);
+        assert(op_justified(x, o, n, d));
+        assert(apply_all(dir0, ops, k, h) == apply_op(dk, x, h));
+        if x is WriteFile {
+            // everything before a write is a write or a create: directories only grew
+            assert forall|j: int| 0 <= j < k - 1 implies !is_del(#[trigger] at(ops, j)) by {
+                if is_del(at(ops, j)) { assert(is_del(at(ops, k - 1))); }
+            }
+            assert(dirs_grow(dk, dir0, ops, k - 1));
+            lemma_diff_write(x, o, n, d, h);
+            let p0 = x->WriteFile_0;
+            assert(p0.len() > 0) by {
+                if exists|f: u64| n.has_root(f) && p0 == root_path(d, f) {
+                    let f = choose|f: u64| n.has_root(f) && p0 == root_path(d, f); lemma_paths(d, 0, 0, f);
+                } else {
+                    let (e, s, f) = choose|e: u64, s: u64, f: u64| n.has_nested(e, s, f) && p0 == nested_path(d, e, s, f); lemma_paths(d, e, s, f);
+                }
+            }
+            assert(write_has_dir(ops, k - 1, o, d));
+            let parent = p0.drop_last();
+            if parent == d {
+                assert((dir0.dirs)(d));
+            } else if exists|e: u64, s: u64| o.has_sel(e, s) && parent == sel_dir(d, e, s) {
+                let (e, s) = choose|e: u64, s: u64| o.has_sel(e, s) && parent == sel_dir(d, e, s);
+                assert((dir0.dirs)(sel_dir(d, e, s)));
+            } else {
+                let j = choose|j: int| 0 <= j < k - 1 && j < ops.len() && #[trigger] at(ops, j) == OpV::CreateDirectory(parent);
+                assert(at(ops, j) is CreateDirectory);
+            }
+            assert((dk.dirs)(parent));
+        } else if x is CreateDirectory {
+            assert forall|j: int| 0 <= j < k - 1 implies !is_del(#[trigger] at(ops, j)) by {
+                if is_del(at(ops, j)) { assert(is_del(at(ops, k - 1))); }
+            }
+            let q = x->CreateDirectory_0;
+            assert(is_prefix(q, q)) by { assert(q.subrange(0, q.len() as int) =~= q); }
+        } else if x is DeleteFile {
+            let p0 = x->DeleteFile_0;
+            lemma_diff_delete_target(x, o, n, d);
+            // not rewritten by the plan (writes go to paths of the new state) ...
+            if written_d(ops, k - 1, p0) {
+                let i = choose|i: int| 0 <= i < k - 1 && i < ops.len() && wr_hit(#[trigger] at(ops, i), p0);
+                assert(op_justified(at(ops, i), o, n, d));
+                lemma_diff_write(at(ops, i), o, n, d, h);
+            }
+            // ... and not deleted before: not as a file (deletes_once), not with a directory
+            if deleted_d(ops, k - 1, p0) {
+                let i = choose|i: int| 0 <= i < k - 1 && i < ops.len() && del_hit(#[trigger] at(ops, i), p0);
+                assert(op_justified(at(ops, i), o, n, d));
+                if at(ops, i) is DeleteFile {
+                    assert(at(ops, i)->DeleteFile_0 != at(ops, k - 1)->DeleteFile_0);
+                } else {
+                    lemma_diff_dir_vs_file(at(ops, i), x, o, n, d);
+                }
+            }
+            assert(diff_inv(dk, ops, k - 1, o, n, d));
+            assert((dk.files)(p0) == o.file_at(d, p0));
+        } else {
+        }
+        if forall|j: int| 0 <= j < k ==> !is_del(#[trigger] at(ops, j)) {
+            assert(!is_del(at(ops, k - 1)));
+            assert forall|j: int| 0 <= j < k - 1 implies !is_del(#[trigger] at(ops, j)) by {}
+            let dn = apply_op(dk, x, h)->Some_0;
+            assert(dirs_grow(dk, dir0, ops, k - 1));
+            assert forall|j: int| 0 <= j < k && j < ops.len() && (#[trigger] at(ops, j)) is CreateDirectory implies (dn.dirs)(at(ops, j)->CreateDirectory_0) by {
+                if j < k - 1 { assert((dk.dirs)(at(ops, j)->CreateDirectory_0)); }
+                else { let q = x->CreateDirectory_0; assert(q.subrange(0, q.len() as int) =~= q); }
+            }
+        }
+    }
+}
+pub open spec fn created_d(ops: Seq<FileSystemOperation>, k: int, q: Seq<int>) -> bool {
+    exists|j: int| 0 <= j < k && j < ops.len() && (#[trigger] at(ops, j)) is CreateDirectory && is_prefix(q, at(ops, j)->CreateDirectory_0)
+}
+pub open spec fn dirdel_d(ops: Seq<FileSystemOperation>, k: int, q: Seq<int>) -> bool {
+    exists|j: int| 0 <= j < k && j < ops.len() && (#[trigger] at(ops, j)) is DeleteDirectory && is_prefix(at(ops, j)->DeleteDirectory_0, q)
+}
+/// the directories after the first k operations of a phased plan that did not fail
+pub open spec fn dirs_fold(dk: Dir, dir0: Dir, ops: Seq<FileSystemOperation>, k: int) -> bool {
+    forall|q: Seq<int>| #[trigger] (dk.dirs)(q) == (((dir0.dirs)(q) || created_d(ops, k, q)) && !dirdel_d(ops, k, q))
+}
+pub proof fn lemma_cd_step(ops: Seq<FileSystemOperation>, k: int, q: Seq<int>)
+    requires 1 <= k <= ops.len()
+    ensures
+        created_d(ops, k, q) == (created_d(ops, k - 1, q) || (at(ops, k - 1) is CreateDirectory && is_prefix(q, at(ops, k - 1)->CreateDirectory_0))),
+        dirdel_d(ops, k, q) == (dirdel_d(ops, k - 1, q) || (at(ops, k - 1) is DeleteDirectory && is_prefix(at(ops, k - 1)->DeleteDirectory_0, q))),
+{
+    if created_d(ops, k, q) {
+        let j = choose|j: int| 0 <= j < k && j < ops.len() && (#[trigger] at(ops, j)) is CreateDirectory && is_prefix(q, at(ops, j)->CreateDirectory_0);
+        if j != k - 1 { assert(0 <= j < k - 1 && at(ops, j) is CreateDirectory); }
+    }
+    if created_d(ops, k - 1, q) {
+        let j = choose|j: int| 0 <= j < k - 1 && j < ops.len() && (#[trigger] at(ops, j)) is CreateDirectory && is_prefix(q, at(ops, j)->CreateDirectory_0);
+        assert(0 <= j < k && at(ops, j) is CreateDirectory);
+    }
+    if at(ops, k - 1) is CreateDirectory && is_prefix(q, at(ops, k - 1)->CreateDirectory_0) { assert(0 <= k - 1 < k && at(ops, k - 1) is CreateDirectory); }
+    if dirdel_d(ops, k, q) {
+        let j = choose|j: int| 0 <= j < k && j < ops.len() && (#[trigger] at(ops, j)) is DeleteDirectory && is_prefix(at(ops, j)->DeleteDirectory_0, q);
+        if j != k - 1 { assert(0 <= j < k - 1 && at(ops, j) is DeleteDirectory); }
+    }
+    if dirdel_d(ops, k - 1, q) {
+        let j = choose|j: int| 0 <= j < k - 1 && j < ops.len() && (#[trigger] at(ops, j)) is DeleteDirectory && is_prefix(at(ops, j)->DeleteDirectory_0, q);
+        assert(0 <= j < k && at(ops, j) is DeleteDirectory);
+    }
+    if at(ops, k - 1) is DeleteDirectory && is_prefix(at(ops, k - 1)->DeleteDirectory_0, q) { assert(0 <= k - 1 < k && at(ops, k - 1) is DeleteDirectory); }
+}
+pub proof fn lemma_diff_dirs_fold(dir0: Dir, ops: Seq<FileSystemOperation>, h: spec_fn(usize) -> ArtifactHash, k: int)
+    requires phased(ops), 0 <= k <= ops.len(), apply_all(dir0, ops, k, h) is Some,
+    ensures dirs_fold(apply_all(dir0, ops, k, h)->Some_0, dir0, ops, k),
+    decreases k
+{
+    if k == 0 {
+        assert forall|q: Seq<int>| #[trigger] (dir0.dirs)(q) == (((dir0.dirs)(q) || created_d(ops, 0, q)) && !dirdel_d(ops, 0, q)) by {
+            assert(!created_d(ops, 0, q) && !dirdel_d(ops, 0, q));
+        }
+    } else {
+        assert(apply_all(dir0, ops, k - 1, h) is Some);
+        lemma_diff_dirs_fold(dir0, ops, h, k - 1);
+        let dk = apply_all(dir0, ops, k - 1, h)->Some_0;
+        let x = at(ops, k - 1);
+        let dn = apply_op(dk, x, h)->Some_0;
+        assert(apply_all(dir0, ops, k, h) == apply_op(dk, x, h));
+        assert forall|q: Seq<int>| #[trigger] (dn.dirs)(q) == (((dir0.dirs)(q) || created_d(ops, k, q)) && !dirdel_d(ops, k, q)) by {
+            lemma_cd_step(ops, k, q);
+            assert((dk.dirs)(q) == (((dir0.dirs)(q) || created_d(ops, k - 1, q)) && !dirdel_d(ops, k - 1, q)));
+            if x is CreateDirectory {
+                // a phased plan has not deleted anything before it creates
+                if dirdel_d(ops, k - 1, q) {
+                    let j = choose|j: int| 0 <= j < k - 1 && j < ops.len() && (#[trigger] at(ops, j)) is DeleteDirectory && is_prefix(at(ops, j)->DeleteDirectory_0, q);
+                    assert(is_del(at(ops, j))); assert(is_del(at(ops, k - 1)));
+                }
+            }
+        }
+    }
+}
+pub proof fn lemma_dir_prefixes(d: Seq<int>, e1: u64, s1: u64, e: u64, s: u64)
+    ensures
+        !is_prefix(ent_dir(d, e1), d), !is_prefix(sel_dir(d, e1, s1), d),
+        is_prefix(ent_dir(d, e1), sel_dir(d, e, s)) ==> e1 == e,
+        is_prefix(sel_dir(d, e1, s1), sel_dir(d, e, s)) ==> e1 == e && s1 == s,
+        is_prefix(sel_dir(d, e, s), sel_dir(d, e, s)),
+{
+    let dl = d.len() as int;
+    if is_prefix(ent_dir(d, e1), sel_dir(d, e, s)) {
+        assert(sel_dir(d, e, s).subrange(0, dl + 1)[dl] == ent_dir(d, e1)[dl]);
+    }
+    if is_prefix(sel_dir(d, e1, s1), sel_dir(d, e, s)) {
+        assert(sel_dir(d, e, s).subrange(0, dl + 2)[dl] == sel_dir(d, e1, s1)[dl]);
+        assert(sel_dir(d, e, s).subrange(0, dl + 2)[dl + 1] == sel_dir(d, e1, s1)[dl + 1]);
+    }
+    assert(sel_dir(d, e, s).subrange(0, dl + 2) =~= sel_dir(d, e, s));
+}
+/// after the incremental plan, every directory the NEW state implies exists (so the next
+/// incremental plan finds what it expects)
+pub proof fn lemma_diff_dirs(dir0: Dir, ops: Seq<FileSystemOperation>, o: &FileSystemState, n: &FileSystemState, d: Seq<int>, h: spec_fn(usize) -> ArtifactHash)
+    requires
+        all_justified(ops, o, n, d), writes_have_dirs(ops, o, d), phased(ops), deletes_once(ops),
+        all_w(ops, o, n, d),
+        names_disjoint(o, n), names_disjoint(o, o), n.hashes_match(h),
+        files_match(dir0, o, d), dirs_ok(dir0, o, d),
+    ensures
+        apply_all(dir0, ops, ops.len() as int, h) is Some,
+        dirs_ok(apply_all(dir0, ops, ops.len() as int, h)->Some_0, n, d),
+{
+    let len = ops.len() as int;
+    lemma_diff_succeeds(dir0, ops, o, n, d, h, len);
+    lemma_diff_dirs_fold(dir0, ops, h, len);
+    let dn = apply_all(dir0, ops, len, h)->Some_0;
+    assert(!dirdel_d(ops, len, d)) by {
+        if dirdel_d(ops, len, d) {
+            let j = choose|j: int| 0 <= j < len && j < ops.len() && (#[trigger] at(ops, j)) is DeleteDirectory && is_prefix(at(ops, j)->DeleteDirectory_0, d);
+            assert(op_justified(at(ops, j), o, n, d));
+            if exists|e1: u64| o.has_entity(e1) && !n.has_entity(e1) && at(ops, j) == OpV::DeleteDirectory(ent_dir(d, e1)) {
+                let e1 = choose|e1: u64| o.has_entity(e1) && !n.has_entity(e1) && at(ops, j) == OpV::DeleteDirectory(ent_dir(d, e1));
+                lemma_dir_prefixes(d, e1, 0, 0, 0);
+            } else {
+                let (e1, s1) = choose|e1: u64, s1: u64| o.has_sel(e1, s1) && n.has_entity(e1) && !n.has_sel(e1, s1) && at(ops, j) == OpV::DeleteDirectory(sel_dir(d, e1, s1));
+                lemma_dir_prefixes(d, e1, s1, 0, 0);
+            }
+        }
+    }
+    assert((dn.dirs)(d));
+    assert forall|e: u64, s: u64| #[trigger] n.has_sel(e, s) implies (dn.dirs)(sel_dir(d, e, s)) by {
+        let q = sel_dir(d, e, s);
+        lemma_dir_prefixes(d, 0, 0, e, s);
+        if !o.has_sel(e, s) {
+            assert(n.has_entity(e));
+            assert(ent_w(ops, o, n, d, e)); assert(sel_w(ops, o, n, d, e, s));
+            let j = choose|j: int| 0 <= j < ops.len() && #[trigger] at(ops, j) == OpV::CreateDirectory(q);
+            assert(at(ops, j) is CreateDirectory && is_prefix(q, at(ops, j)->CreateDirectory_0));
+            assert(created_d(ops, len, q));
+        }
+        if dirdel_d(ops, len, q) {
+            let j = choose|j: int| 0 <= j < len && j < ops.len() && (#[trigger] at(ops, j)) is DeleteDirectory && is_prefix(at(ops, j)->DeleteDirectory_0, q);
+            assert(op_justified(at(ops, j), o, n, d));
+            if exists|e1: u64| o.has_entity(e1) && !n.has_entity(e1) && at(ops, j) == OpV::DeleteDirectory(ent_dir(d, e1)) {
+                let e1 = choose|e1: u64| o.has_entity(e1) && !n.has_entity(e1) && at(ops, j) == OpV::DeleteDirectory(ent_dir(d, e1));
+                lemma_dir_prefixes(d, e1, 0, e, s);
+                assert(n.has_entity(e));
+            } else {
+                let (e1, s1) = choose|e1: u64, s1: u64| o.has_sel(e1, s1) && n.has_entity(e1) && !n.has_sel(e1, s1) && at(ops, j) == OpV::DeleteDirectory(sel_dir(d, e1, s1));
+                lemma_dir_prefixes(d, e1, s1, e, s);
+            }
+        }
+    }
+}
 /// C18, later compiles: if the directory held exactly the files of the remembered state and
 /// the diff plan was applied without an error, it holds exactly the files of the new state
 pub proof fn lemma_diff_correct(dir0: Dir, ops: Seq<FileSystemOperation>, o: &FileSystemState, n: &FileSystemState, d: Seq<int>, h: spec_fn(usize) -> ArtifactHash)
@@ -1709,6 +2270,72 @@ pub proof fn lemma_diff_correct(dir0: Dir, ops: Seq<FileSystemOperation>, o: &Fi
     }
 }
 
+// ---------------- the artifact list is never empty (generate_artifacts.rs, ts_config.rs) ----------------
+/// `"{ .. }".to_string().into()` / `"tsconfig.json".intern().into()`: a content / a file name
+/// built from a literal
+#[verifier::external_body]
+pub fn file_content_of_literal() -> FileContent { unimplemented!() }
+#[verifier::external_body]
+pub fn file_name_of_literal() -> ArtifactFileName { unimplemented!() }
+//@fn rel=crates/artifact_content/src/ts_config.rs name=generate_ts_config vis=pub ret=r serves=C18,C19
+//@sub "file_content: [\s\S]*?\.to_string\(\)\s*\.into\(\)" => "file_content: file_content_of_literal()" n=1
+//@sub "file_name: [^,]*\.intern\(\)\.into\(\)" => "file_name: file_name_of_literal()" n=1
+//@contract
+    ensures art_root(r), //@O C18+C19.O-0_tsconfig_is_a_root_artifact
+//@end
+#[verifier::external_body]
+pub struct IsographDb { p: core::marker::PhantomData<u8> }
+pub struct ArtifactOptions { pub include_file_extensions_in_import_statements: bool, pub no_babel_transform: bool }
+pub struct ArtifactConfig { pub options: ArtifactOptions }
+#[verifier::external_body]
+pub struct PersistedDocuments { p: core::marker::PhantomData<u8> }
+impl PersistedDocuments {
+    #[verifier::external_body]
+    pub fn path_and_content(self) -> ArtifactPathAndContent { unimplemented!() }
+}
+/// iso.ts (no contract: whatever it returns)
+#[verifier::external_body]
+pub fn build_iso_overload_artifact(db: &IsographDb, include_file_extensions: bool, no_babel_transform: bool) -> ArtifactPathAndContent { unimplemented!() }
+pub open spec fn has_root_artifact(arts: Seq<ArtifactPathAndContent>) -> bool {
+    exists|i: int| 0 <= i < arts.len() && art_root(#[trigger] arts[i])
+}
+/// the LAST statements of the real get_artifact_path_and_content (extracted; everything before
+/// them only fills `path_and_contents`): whatever was collected, iso.ts and tsconfig.json are
+/// appended, so no artifact list is empty and every list holds a root file
+pub fn artifact_list_tail(path_and_contents: Vec<ArtifactPathAndContent>, db: &IsographDb, config: &ArtifactConfig,
+    persisted_documents: Option<PersistedDocuments>) -> (r: Vec<ArtifactPathAndContent>)
+    ensures has_root_artifact(r@), //@O C18+C19.O-0_every_artifact_list_holds_a_root_file
+{
+    let mut path_and_contents = path_and_contents;
+    let ghost n0 = path_and_contents@.len();
+//@expr rel=crates/artifact_content/src/generate_artifacts.rs fn=get_artifact_path_and_content_impl start="path_and_contents.push(build_iso_overload_artifact(" until="$" block=artifact_list_tail serves=C18,C19 sub="path_and_contents\.push\(generate_ts_config\(\)\);=>path_and_contents.push(generate_ts_config()); proof { assert(art_root(path_and_contents@[n0 as int + 1])); }" sub2="\}\s*path_and_contents\s*$=>} proof { assert(art_root(path_and_contents@[n0 as int + 1])); } path_and_contents"
+}
+/// among the artifacts with the path of artifact i there is a last one
+pub proof fn lemma_last_exists(arts: Seq<ArtifactPathAndContent>, i: int, k: int)
+    requires 0 <= i <= k < arts.len(), same_path(arts[i], arts[k]),
+    ensures exists|j: int| k <= j < arts.len() && #[trigger] last_of_path(arts, arts.len() as int, j) && same_path(arts[i], arts[j]),
+    decreases arts.len() - k
+{
+    if forall|j: int| k < j < arts.len() ==> !same_path(arts[k], #[trigger] arts[j]) {
+        assert(last_of_path(arts, arts.len() as int, k));
+    } else {
+        let j = choose|j: int| k < j < arts.len() && same_path(arts[k], #[trigger] arts[j]);
+        assert(same_path(arts[i], arts[j]));
+        lemma_last_exists(arts, i, j);
+    }
+}
+/// a state built from a list that holds a root file is not empty
+pub proof fn lemma_root_artifact_nonempty(st: &FileSystemState, arts: Seq<ArtifactPathAndContent>)
+    requires st.reflects(arts, arts.len() as int), has_root_artifact(arts),
+    ensures st.nonempty(),
+{
+    let i = choose|i: int| 0 <= i < arts.len() && art_root(#[trigger] arts[i]);
+    lemma_last_exists(arts, i, i);
+    let j = choose|j: int| i <= j < arts.len() && #[trigger] last_of_path(arts, arts.len() as int, j) && same_path(arts[i], arts[j]);
+    assert(art_root(arts[j]));
+    assert(st.has_root(art_f(arts[j])));
+}
+
 // =====================================================================================
 // Sessions: from the per-call contracts to "for every history of compiles" (C17/C18/C19)
 // =====================================================================================
@@ -1717,8 +2344,14 @@ pub proof fn lemma_diff_correct(dir0: Dir, ops: Seq<FileSystemOperation>, o: &Fi
 pub open spec fn planned(o: Option<FileSystemState>, arts: Seq<ArtifactPathAndContent>, d: Seq<int>,
     ops: Seq<FileSystemOperation>, st: FileSystemState) -> bool {
     &&& st.reflects(arts, arts.len() as int)
+    &&& st.sels_nonempty()
     &&& o is None ==> forall|dir0: Dir| (#[trigger] apply_all(dir0, ops, ops.len() as int, contents_of(arts))) is Some
             && files_match(apply_all(dir0, ops, ops.len() as int, contents_of(arts))->Some_0, &st, d)
+            && (st.nonempty() ==> dirs_ok(apply_all(dir0, ops, ops.len() as int, contents_of(arts))->Some_0, &st, d))
+    &&& o is Some ==> forall|dir0: Dir| files_match(dir0, &o->Some_0, d) && dirs_ok(dir0, &o->Some_0, d)
+            && names_disjoint(&o->Some_0, &st) && names_disjoint(&o->Some_0, &o->Some_0)
+            ==> (#[trigger] apply_all(dir0, ops, ops.len() as int, contents_of(arts))) is Some
+                && dirs_ok(apply_all(dir0, ops, ops.len() as int, contents_of(arts))->Some_0, &st, d)
     &&& o is Some ==> forall|dir0: Dir| files_match(dir0, &o->Some_0, d) && names_disjoint(&o->Some_0, &st)
             && (#[trigger] apply_all(dir0, ops, ops.len() as int, contents_of(arts))) is Some
             ==> files_match(apply_all(dir0, ops, ops.len() as int, contents_of(arts))->Some_0, &st, d)
@@ -1757,6 +2390,12 @@ pub open spec fn rec_ok(w: World, r: CompileRec, d: Seq<int>) -> bool {
     r.outcome is FailedBeforePlanning || {
         &&& planned(w.state, r.arts, d, r.ops, r.st)
         &&& w.state is Some ==> names_disjoint(&w.state->Some_0, &r.st)
+        // about the artifact lists: a root file is never named like an entity directory (assumed),
+        // and every list holds a root file (C18+C19.O-0: proved for the last statements of the real
+        // get_artifact_path_and_content, which appends iso.ts and tsconfig.json to whatever it
+        // collected; that compile() plans exactly that list is compile's contract, unit compile_driver)
+        &&& names_disjoint(&r.st, &r.st)
+        &&& has_root_artifact(r.arts)
         // apply returned Ok only if every operation succeeded
         &&& r.outcome is Succeeded ==> apply_all(w.dir, r.ops, r.ops.len() as int, contents_of(r.arts)) is Some
     }
@@ -1772,7 +2411,8 @@ pub open spec fn all_ok(w0: World, recs: Seq<CompileRec>, k: int, d: Seq<int>) -
 /// the session invariant: whenever the compiler remembers a state, the directory holds
 /// exactly the files of that state
 pub open spec fn world_inv(w: World, d: Seq<int>) -> bool {
-    w.state is Some ==> files_match(w.dir, &w.state->Some_0, d)
+    w.state is Some ==> files_match(w.dir, &w.state->Some_0, d) && dirs_ok(w.dir, &w.state->Some_0, d)
+        && names_disjoint(&w.state->Some_0, &w.state->Some_0)
 }
 /// C17 + C18 + C19 for every history: a session starts knowing nothing about the directory
 /// (whatever it holds); after ANY sequence of compiles - failing before planning, failing
@@ -1786,6 +2426,11 @@ pub proof fn lemma_session(w0: World, recs: Seq<CompileRec>, k: int, d: Seq<int>
             files_match(run(w0, recs, i + 1).dir, &recs[i].st, d)
             && recs[i].st.reflects(recs[i].arts, recs[i].arts.len() as int)
             && run(w0, recs, i + 1).state == Some(recs[i].st),
+        // no plan fails by itself: whenever a compile got as far as planning, its plan applies
+        // completely to the directory as the session left it (an Err from the apply step can
+        // only be a genuine I/O failure)
+        forall|i: int| 0 <= i < k && !((#[trigger] recs[i]).outcome is FailedBeforePlanning) ==>
+            apply_all(run(w0, recs, i).dir, recs[i].ops, recs[i].ops.len() as int, contents_of(recs[i].arts)) is Some,
     decreases k
 {
     if k > 0 {
@@ -1795,6 +2440,7 @@ pub proof fn lemma_session(w0: World, recs: Seq<CompileRec>, k: int, d: Seq<int>
         let r = recs[k - 1];
         assert(rec_ok(w, r, d));
         assert(run(w0, recs, k) == step(w, r));
+        if !(r.outcome is FailedBeforePlanning) { lemma_root_artifact_nonempty(&r.st, r.arts); }
         if r.outcome is Succeeded {
             let h = contents_of(r.arts);
             let a = apply_all(w.dir, r.ops, r.ops.len() as int, h);
@@ -1805,6 +2451,13 @@ pub proof fn lemma_session(w0: World, recs: Seq<CompileRec>, k: int, d: Seq<int>
             && recs[i].st.reflects(recs[i].arts, recs[i].arts.len() as int)
             && run(w0, recs, i + 1).state == Some(recs[i].st) by {
             if i == k - 1 { } 
+        }
+        assert forall|i: int| 0 <= i < k && !((#[trigger] recs[i]).outcome is FailedBeforePlanning) implies
+            apply_all(run(w0, recs, i).dir, recs[i].ops, recs[i].ops.len() as int, contents_of(recs[i].arts)) is Some by {
+            if i == k - 1 {
+                assert(world_inv(w, d));
+                assert(planned(w.state, r.arts, d, r.ops, r.st));
+            }
         }
     }
 }
